@@ -4,7 +4,7 @@
 (* and issuance from a request (C06).                                       *)
 (* args a = [params, key, attrs];  view o = decoded PKCS#10 request.        *)
 (***************************************************************************)
-EXTENDS Cert
+EXTENDS Cert, Strings
 
 OidExtReq == "1.2.840.113549.1.9.14"
 
@@ -114,6 +114,9 @@ Carriable(r) ==
   /\ \A i \in DOMAIN r.eku : r.eku[i] \in StdEkuOids
   /\ ~r.undecodableExt
   /\ NoRepeatedTy(r.subject) /\ ~r.subjectMulti
+  (* every character of every subject value lies in the alphabet of its string type (rcgen's string types admit nothing else) *)
+  /\ \A i \in DOMAIN r.subject : r.subject[i].kind \in {"printable", "ia5", "teletex", "bmp", "universal"} =>
+        \A j \in DOMAIN r.subjectCps[i] : InAlphabet(r.subject[i].kind, r.subjectCps[i][j])
 
 ReqCsrParse(a, out, o) ==
   IF out # "Ok" THEN {}
